@@ -1,4 +1,320 @@
 /- helper lemmas for C05 -/
 import TinyHttpModel.RespSpec
 namespace TH
+
+/-! ### `Q.gt` is a strict weak order -/
+
+theorem Q.gt_asymm {a b : Q} (h : a.gt b = true) : b.gt a = false := by
+  obtain ⟨an, am⟩ := a
+  obtain ⟨bn, bm⟩ := b
+  cases an <;> cases bn <;> simp [Q.gt] at h ⊢ <;> omega
+
+/-- negative transitivity: `¬ z > y → ¬ y > x → ¬ z > x`. -/
+theorem Q.gt_negtrans {x y z : Q} (h1 : z.gt y = false) (h2 : y.gt x = false) :
+    z.gt x = false := by
+  obtain ⟨xn, xm⟩ := x
+  obtain ⟨yn, ym⟩ := y
+  obtain ⟨zn, zm⟩ := z
+  cases xn <;> cases yn <;> cases zn <;> simp [Q.gt] at h1 h2 ⊢ <;> omega
+
+/-! ### sortedness of `sortDesc` -/
+
+/-- no later element has a strictly greater q than an earlier one. -/
+def SortedDesc (l : List (Bytes × Q)) : Prop :=
+  l.Pairwise (fun a b => b.2.gt a.2 = false)
+
+theorem mem_insertFront {x z : Bytes × Q} {l : List (Bytes × Q)} :
+    z ∈ insertFront x l → z = x ∨ z ∈ l := by
+  induction l with
+  | nil => simp [insertFront]
+  | cons y ys ih =>
+    unfold insertFront
+    split
+    · intro h
+      rcases List.mem_cons.1 h with h | h
+      · exact Or.inr (h ▸ List.mem_cons_self)
+      · rcases ih h with h | h
+        · exact Or.inl h
+        · exact Or.inr (List.mem_cons_of_mem _ h)
+    · intro h
+      rcases List.mem_cons.1 h with h | h
+      · exact Or.inl h
+      · exact Or.inr h
+
+/-- in a sorted list whose head is not `gt x`, nothing is `gt x`. -/
+theorem SortedDesc.all_not_gt {x y : Bytes × Q} {ys : List (Bytes × Q)}
+    (hs : SortedDesc (y :: ys)) (hy : y.2.gt x.2 = false) :
+    ∀ z ∈ y :: ys, z.2.gt x.2 = false := by
+  intro z hz
+  rcases List.mem_cons.1 hz with h | h
+  · exact h ▸ hy
+  · exact Q.gt_negtrans ((List.pairwise_cons.1 hs).1 z h) hy
+
+theorem insertFront_sorted (x : Bytes × Q) {l : List (Bytes × Q)} (hs : SortedDesc l) :
+    SortedDesc (insertFront x l) := by
+  induction l with
+  | nil => simp [insertFront, SortedDesc]
+  | cons y ys ih =>
+    have hp := List.pairwise_cons.1 hs
+    unfold insertFront
+    split
+    · rename_i hgt
+      refine List.pairwise_cons.2 ⟨?_, ih hp.2⟩
+      intro z hz
+      rcases mem_insertFront hz with h | h
+      · exact h ▸ Q.gt_asymm hgt
+      · exact hp.1 z h
+    · rename_i hgt
+      have hgt' : y.2.gt x.2 = false := by simpa using hgt
+      exact List.pairwise_cons.2 ⟨hs.all_not_gt hgt', hs⟩
+
+theorem sortDesc_sorted (l : List (Bytes × Q)) : SortedDesc (sortDesc l) := by
+  induction l with
+  | nil => simp [sortDesc, SortedDesc]
+  | cons x xs ih => exact insertFront_sorted x ih
+
+/-! ### admissible elements -/
+
+/-- the admissible form of a single TE element. -/
+def adm1 (x : Bytes × Q) : Option (Coding × Q) :=
+  if x.2.pos then (codingOfName x.1).map (fun c => (c, x.2)) else none
+
+theorem admissible_cons (x : Bytes × Q) (r : List (Bytes × Q)) :
+    Spec.admissible (x :: r) =
+      (match adm1 x with
+       | some y => y :: Spec.admissible r
+       | none => Spec.admissible r) := by
+  obtain ⟨n, q⟩ := x
+  simp only [Spec.admissible, adm1]
+  cases q.pos <;> simp
+  cases codingOfName n <;> simp
+
+theorem adm1_snd {x : Bytes × Q} {y : Coding × Q} (h : adm1 x = some y) : y.2 = x.2 := by
+  unfold adm1 at h
+  split at h
+  · cases hc : codingOfName x.1 with
+    | none => simp [hc] at h
+    | some c =>
+      simp [hc] at h
+      rw [← h]
+  · cases h
+
+theorem admissible_mem_snd {l : List (Bytes × Q)} {y : Coding × Q} :
+    y ∈ Spec.admissible l → ∃ w ∈ l, w.2 = y.2 := by
+  induction l with
+  | nil => simp [Spec.admissible]
+  | cons x xs ih =>
+    rw [admissible_cons]
+    cases hx : adm1 x with
+    | none =>
+      simp only
+      intro h
+      obtain ⟨w, hw, e⟩ := ih h
+      exact ⟨w, List.mem_cons_of_mem _ hw, e⟩
+    | some x' =>
+      simp only
+      intro h
+      rcases List.mem_cons.1 h with h | h
+      · exact ⟨x, List.mem_cons_self, by rw [h, adm1_snd hx]⟩
+      · obtain ⟨w, hw, e⟩ := ih h
+        exact ⟨w, List.mem_cons_of_mem _ hw, e⟩
+
+/-- the first admissible element after inserting `x` into a sorted list. -/
+theorem head_admissible_insertFront (x : Bytes × Q) {l : List (Bytes × Q)} (hs : SortedDesc l) :
+    (Spec.admissible (insertFront x l)).head? =
+      (match adm1 x with
+       | none => (Spec.admissible l).head?
+       | some x' =>
+         match (Spec.admissible l).head? with
+         | none => some x'
+         | some y => if y.2.gt x'.2 then some y else some x') := by
+  induction l with
+  | nil =>
+    simp only [insertFront]
+    rw [admissible_cons]
+    cases adm1 x <;> simp [Spec.admissible]
+  | cons y ys ih =>
+    have hp := List.pairwise_cons.1 hs
+    unfold insertFront
+    split
+    · rename_i hgt
+      rw [admissible_cons y, admissible_cons y]
+      cases hy : adm1 y with
+      | none => simpa using ih hp.2
+      | some y' =>
+        have e : y'.2 = y.2 := adm1_snd hy
+        cases hx : adm1 x with
+        | none => simp
+        | some x' =>
+          have e' : x'.2 = x.2 := adm1_snd hx
+          simp [e, e', hgt]
+    · rename_i hgt
+      have hgt' : y.2.gt x.2 = false := by simpa using hgt
+      rw [admissible_cons x]
+      cases hx : adm1 x with
+      | none => simp
+      | some x' =>
+        have e' : x'.2 = x.2 := adm1_snd hx
+        simp only [List.head?_cons]
+        cases hh : (Spec.admissible (y :: ys)).head? with
+        | none => simp
+        | some z =>
+          have hz : z ∈ Spec.admissible (y :: ys) := List.mem_of_head? hh
+          obtain ⟨w, hw, ew⟩ := admissible_mem_snd hz
+          have : z.2.gt x'.2 = false := by
+            rw [← ew, e']
+            exact hs.all_not_gt hgt' w hw
+          simp [this]
+
+theorem head_admissible_sortDesc (l : List (Bytes × Q)) :
+    (Spec.admissible (sortDesc l)).head? = Spec.bestOf (Spec.admissible l) := by
+  induction l with
+  | nil => simp [sortDesc, Spec.admissible, Spec.bestOf]
+  | cons x xs ih =>
+    simp only [sortDesc]
+    rw [head_admissible_insertFront x (sortDesc_sorted xs), ih, admissible_cons]
+    cases adm1 x with
+    | none => rfl
+    | some x' =>
+      simp only [Spec.bestOf]
+      cases Spec.bestOf (Spec.admissible xs) <;> rfl
+
+theorem pickCoding_eq_head (l : List (Bytes × Q)) :
+    pickCoding l = (Spec.admissible l).head?.map (·.1) := by
+  induction l with
+  | nil => simp [pickCoding, Spec.admissible]
+  | cons x xs ih =>
+    obtain ⟨n, q⟩ := x
+    simp only [pickCoding, Spec.admissible]
+    cases q.pos <;> simp [ih]
+    cases codingOfName n <;> simp
+
+/-- the selection loop over the sorted list is "the earliest element of greatest q". -/
+theorem pickCoding_sortDesc (l : List (Bytes × Q)) :
+    pickCoding (sortDesc l) = (Spec.bestOf (Spec.admissible l)).map (·.1) := by
+  rw [pickCoding_eq_head, head_admissible_sortDesc]
+
+/-! ### the guard of `chooseTransferEncoding` -/
+
+theorem teRequest_of_teList {reqHeaders : List Header} {te : List (Bytes × Q)}
+    (hte : Spec.teList reqHeaders = some te) :
+    teRequest reqHeaders = some ((Spec.bestOf (Spec.admissible te)).map (·.1)) := by
+  unfold Spec.teList at hte
+  unfold teRequest
+  cases hf : findHeader reqHeaders b!"TE" with
+  | none =>
+    rw [hf] at hte
+    simp only [Option.some.injEq] at hte
+    subst hte
+    simp [Spec.admissible, Spec.bestOf]
+  | some h =>
+    rw [hf] at hte
+    simp only at hte ⊢
+    rw [hte]
+    simp only [pickCoding_sortDesc]
+
+/-! ### framing headers -/
+
+theorem insertAuto_clean {hs : List Header} (date : Bytes) (up : Option Bytes)
+    (hclean : ∀ h ∈ hs, Spec.isAutoFraming h = false) :
+    ∀ h ∈ insertAuto hs date up, Spec.isAutoFraming h = false := by
+  intro h hh
+  unfold insertAuto at hh
+  have hD : Spec.isAutoFraming ⟨b!"Date", date⟩ = false := by
+    simp only [Spec.isAutoFraming, Header.is]; decide
+  have hS : Spec.isAutoFraming ⟨b!"Server", Extracted.serverName⟩ = false := by decide
+  have hC : Spec.isAutoFraming ⟨b!"Connection", b!"upgrade"⟩ = false := by decide
+  have hU : ∀ p, Spec.isAutoFraming ⟨b!"Upgrade", p⟩ = false := by
+    intro p; simp only [Spec.isAutoFraming, Header.is]; decide
+  have h1 : ∀ h ∈ (if hs.any (·.is b!"Date") then hs else ⟨b!"Date", date⟩ :: hs),
+      Spec.isAutoFraming h = false := by
+    intro h hh
+    split at hh
+    · exact hclean h hh
+    · rcases List.mem_cons.1 hh with e | e
+      · exact e ▸ hD
+      · exact hclean h e
+  generalize (if hs.any (·.is b!"Date") then hs else ⟨b!"Date", date⟩ :: hs) = hs1 at hh h1
+  have h2 : ∀ h ∈ (if hs1.any (·.is b!"Server") then hs1
+      else ⟨b!"Server", Extracted.serverName⟩ :: hs1), Spec.isAutoFraming h = false := by
+    intro h hh
+    split at hh
+    · exact h1 h hh
+    · rcases List.mem_cons.1 hh with e | e
+      · exact e ▸ hS
+      · exact h1 h e
+  simp only at hh
+  generalize (if hs1.any (·.is b!"Server") then hs1
+      else ⟨b!"Server", Extracted.serverName⟩ :: hs1) = hs2 at hh h2
+  cases up with
+  | none => exact h2 h hh
+  | some p =>
+    simp only at hh
+    rcases List.mem_cons.1 hh with e | hh
+    · exact e ▸ hC
+    · rcases List.mem_cons.1 hh with e | hh
+      · exact e ▸ hU p
+      · exact h2 h hh
+
+theorem filter_cl_clean {hs : List Header} (h : ∀ x ∈ hs, Spec.isAutoFraming x = false) :
+    hs.filter (·.is b!"Content-Length") = [] := by
+  rw [List.filter_eq_nil_iff]
+  intro a ha
+  have := h a ha
+  simp only [Spec.isAutoFraming, Bool.or_eq_false_iff] at this
+  simp [this.1]
+
+theorem filter_te_clean {hs : List Header} (h : ∀ x ∈ hs, Spec.isAutoFraming x = false) :
+    hs.filter (·.is b!"Transfer-Encoding") = [] := by
+  rw [List.filter_eq_nil_iff]
+  intro a ha
+  have := h a ha
+  simp only [Spec.isAutoFraming, Bool.or_eq_false_iff] at this
+  simp [this.2]
+
+theorem framedOf_append_clean {hs : List Header} (fh : List Header)
+    (h : ∀ x ∈ hs, Spec.isAutoFraming x = false) :
+    Spec.framedOf (hs ++ fh) = Spec.framedOf fh := by
+  unfold Spec.framedOf
+  simp only [List.filter_append, filter_cl_clean h, filter_te_clean h, List.nil_append]
+
+theorem framedOf_none (len : Option Nat) :
+    Spec.framedOf (framingHeader none len) = Spec.Framed.neither := by
+  simp [framingHeader, Spec.framedOf]
+
+theorem framedOf_chunked (len : Option Nat) :
+    Spec.framedOf (framingHeader (some .chunked) len) = Spec.Framed.chunked := by
+  simp only [framingHeader]
+  decide
+
+theorem framedOf_identity (l : Nat) :
+    Spec.framedOf (framingHeader (some .identity) (some l)) = Spec.Framed.identity (toDec l) := by
+  simp only [framingHeader]
+  have h1 : (⟨b!"Content-Length", toDec l⟩ : Header).is b!"Content-Length" = true := by
+    simp only [Header.is]; decide
+  have h2 : (⟨b!"Content-Length", toDec l⟩ : Header).is b!"Transfer-Encoding" = false := by
+    simp only [Header.is]; decide
+  simp [Spec.framedOf, List.filter, h1, h2]
+
+/-- the three possible outcomes of the framing decision. -/
+theorem framing_cases {r : Resp} {c : ReqCtx} {bodyLen : Nat} {te : Option Coding}
+    {len : Option Nat} (hf : framing r c bodyLen = some (te, len)) :
+    te = none ∨ te = some .chunked ∨
+      (te = some .identity ∧ len = some (r.dataLength.getD bodyLen)) := by
+  unfold framing at hf
+  cases hc : chooseTransferEncoding r.status c.reqHeaders c.version r.dataLength
+      r.chunkedThreshold with
+  | none => rw [hc] at hf; cases hf
+  | some te0 =>
+    rw [hc] at hf
+    simp only [Option.some.injEq, Prod.mk.injEq] at hf
+    obtain ⟨h1, h2⟩ := hf
+    subst h1
+    subst h2
+    cases c.upgrade.isSome
+    · cases te0
+      · cases hd : r.dataLength <;> simp
+      · simp
+    · simp
+
 end TH
